@@ -61,7 +61,8 @@ theorem list_encodes (m : Map) (pfx key : Bytes) (count dir : Nat)
 
 /-- **Pages concatenate to exactly the live entries under the prefix, in key order, each once** —
 for every page size `count ≥ 1`, both directions, starting from either end. -/
-theorem pages_concat {m : Map} (hs : Sorted m) (hk : ∀ e ∈ m, e.1 ≠ []) (pfx : Bytes) (count dir : Nat)
+theorem pages_concat {m : Map} (hs : Sorted m) (pfx : Bytes) (hk : ∀ e ∈ m, pfx <+: e.1 → e.1 ≠ [])
+    (count dir : Nat)
     (hc : 1 ≤ count) (hq : prefixUpper pfx ≠ some emptyValue) :
     pagedAll (fun key => listEntriesPlain m pfx key count dir) (m.length + 1) []
       = some (live (ordered (!isASC dir) (withPrefix m pfx))) := by
@@ -69,7 +70,8 @@ theorem pages_concat {m : Map} (hs : Sorted m) (hk : ∀ e ∈ m, e.1 ≠ []) (p
     rw [length_ordered]; have := withPrefix_length_le m pfx; omega
   exact pagedAll_spec (P := []) (fun key => listEntriesPlain_spec hs pfx key count dir hq)
     (dsorted_ordered (sorted_withPrefix hs pfx) _)
-    (fun e he => hk e (List.mem_filter.mp (mem_ordered.mp he)).1)
+    (fun e he => hk e (List.mem_filter.mp (mem_ordered.mp he)).1
+      (List.isPrefixOf_iff_prefix.mp (List.mem_filter.mp (mem_ordered.mp he)).2))
     hc rfl (by simp [remaining]) hlen
 
 /-- non-vacuity: three keys under the prefix, one tombstoned, one foreign key; page size 1, descending. -/
@@ -202,7 +204,7 @@ theorem list_merged_eq_plain {layers : List Map} (hs : ∀ m ∈ layers, Sorted 
 /-- pages over the merged view concatenate to exactly its live entries under the prefix, in key
 order, each once. -/
 theorem pages_concat_merged {layers : List Map} (hs : ∀ m ∈ layers, Sorted m)
-    (hk : ∀ m ∈ layers, ∀ e ∈ m, e.1 ≠ []) (pfx : Bytes) (count dir : Nat)
+    (pfx : Bytes) (hk : ∀ m ∈ layers, ∀ e ∈ m, pfx <+: e.1 → e.1 ≠ []) (count dir : Nat)
     (hc : 1 ≤ count) (hq : prefixUpper pfx ≠ some emptyValue) :
     pagedAll (fun key => listEntriesMerged layers pfx key count dir) (layersSize layers + 1) []
       = some (live (ordered (!isASC dir) (withPrefix (mergeMaps layers) pfx))) := by
@@ -211,13 +213,14 @@ theorem pages_concat_merged {layers : List Map} (hs : ∀ m ∈ layers, Sorted m
     have := withPrefix_length_le (mergeMaps layers) pfx
     have := length_mergeMaps_le layers
     omega
-  have hkm : ∀ e ∈ mergeMaps layers, e.1 ≠ [] := by
-    intro e he
+  have hkm : ∀ e ∈ mergeMaps layers, pfx <+: e.1 → e.1 ≠ [] := by
+    intro e he hp
     obtain ⟨m, hm, hem⟩ := mem_munion he
-    exact hk m hm e hem
+    exact hk m hm e hem hp
   exact pagedAll_spec (P := []) (fun key => listEntriesMerged_spec hs pfx key count dir hq)
     (dsorted_ordered (sorted_withPrefix (sorted_mergeMaps hs) pfx) _)
-    (fun e he => hkm e (List.mem_filter.mp (mem_ordered.mp he)).1)
+    (fun e he => hkm e (List.mem_filter.mp (mem_ordered.mp he)).1
+      (List.isPrefixOf_iff_prefix.mp (List.mem_filter.mp (mem_ordered.mp he)).2))
     hc rfl (by simp [remaining]) hlen
 
 /-- no foreign / tombstoned / hidden entry in any page of the merged view: every returned entry
